@@ -88,6 +88,7 @@ type halfPipe struct {
 	deadline time.Time
 	timer    *time.Timer
 	total    int64 // bytes ever written
+	max      int   // > 0: back-pressure - a Write blocks while this many bytes are buffered and unread
 }
 
 func newHalf() *halfPipe { h := &halfPipe{}; h.cond = sync.NewCond(&h.mu); return h }
@@ -190,6 +191,9 @@ func (c *BufConn) Read(p []byte) (int, error) {
 			if len(h.buf) == 0 {
 				h.buf = nil
 			}
+			if h.max > 0 {
+				h.cond.Broadcast() // room for a blocked writer
+			}
 			c.readBytes.Add(int64(n))
 			if len(h.buf) == 0 && h.wclosed && h.werr == nil && c.EOFWithData.Load() {
 				return n, io.EOF
@@ -238,6 +242,32 @@ func (c *BufConn) Write(p []byte) (int, error) {
 		h.mu.Unlock()
 		return 0, io.ErrClosedPipe
 	}
+	if h.max > 0 {
+		// bounded pipe: deliver in pieces, blocking while the reader does not drain (back-pressure)
+		rest := p[:n]
+		for len(rest) > 0 {
+			for len(h.buf) >= h.max && !h.wclosed && !h.rclosed && !c.closed.Load() {
+				h.cond.Wait()
+			}
+			if h.wclosed || h.rclosed || c.closed.Load() {
+				written := n - len(rest)
+				h.mu.Unlock()
+				c.writeBytes.Add(int64(written))
+				return written, io.ErrClosedPipe
+			}
+			k := h.max - len(h.buf)
+			if k > len(rest) {
+				k = len(rest)
+			}
+			h.buf = append(h.buf, rest[:k]...)
+			h.total += int64(k)
+			rest = rest[k:]
+			h.cond.Broadcast()
+		}
+		h.mu.Unlock()
+		c.writeBytes.Add(int64(n))
+		return n, ferr
+	}
 	h.buf = append(h.buf, p[:n]...)
 	h.total += int64(n)
 	h.cond.Broadcast()
@@ -285,6 +315,15 @@ func (c *BufConn) Abort(err error) {
 	c.out.cond.Broadcast()
 	c.out.mu.Unlock()
 	c.Close()
+}
+
+// SetMaxBuffered bounds what the PEER may have buffered towards this end before its Write blocks
+// (0 = unbounded). With a bound, a reader that stops reading exerts back-pressure on the writer.
+func (c *BufConn) SetMaxBuffered(n int) {
+	c.in.mu.Lock()
+	c.in.max = n
+	c.in.cond.Broadcast()
+	c.in.mu.Unlock()
 }
 
 func (c *BufConn) IsClosed() bool        { return c.closed.Load() }
